@@ -770,12 +770,12 @@ func c03TransitOriginates(t *testing.T, r *verifkit.R, work string) {
 			ib = tr.streamMgr.NextRequestID()
 		}
 		var armed atomic.Bool
-		var held atomic.Int64
+		var held, holdMs atomic.Int64
 		tap.mu.Lock()
 		tap.onPayload = func(ev *mkFrameEv, payload []byte) {
 			if ev.Write && ev.Local == exit.ID() && ev.Type == protocol.FrameStreamOpenAck && armed.CompareAndSwap(true, false) {
 				held.Add(1)
-				time.Sleep(time.Duration(150+rng.Intn(200)) * time.Millisecond)
+				time.Sleep(time.Duration(holdMs.Load()) * time.Millisecond)
 			}
 		}
 		tap.mu.Unlock()
@@ -787,6 +787,7 @@ func c03TransitOriginates(t *testing.T, r *verifkit.R, work string) {
 			rel := mkTunnelPlan{ID: uint64(ci)<<20 + 0x3000 + uint64(k), Ingress: 0, Via: []string{"tcp", "forward:fwd-exit"}[rng.Intn(2)], Dest: fmt.Sprintf("127.1.9.%d:%d", 1+k, dest.port), C2S: 700, S2C: 700, Mode: mkModeOrderly, Chunk: 200}
 			var wg sync.WaitGroup
 			var csOwn, csRel *mkClientSide
+			holdMs.Store(int64(150 + rng.Intn(200)))
 			armed.Store(true) // the next acknowledgement the exit writes (the transit's own open) is held back
 			wg.Add(2)
 			go func() { defer wg.Done(); csOwn = mkRunTunnel(m, own, 8*time.Second) }()
